@@ -23,7 +23,7 @@ from harness import common
 from harness.common import clist, cz
 
 REQ = ["OV.Index.NumpySpec", "OV.Index.OnnxSlice", "OV.Index.ConverterIdx", "OV.Index.EagerIdx", "OV.Index.Corr",
-       "OV.Index.AdvSpec", "OV.Index.AdvCorr", "OV.Index.EagerFix"]
+       "OV.Index.AdvSpec", "OV.Index.AdvCorr", "OV.Index.EagerFix", "OV.Index.DynForms"]
 KINDS = ["int", ":", "slice", "t0", "t1", "t2"]
 
 
@@ -176,7 +176,7 @@ def classify(idx):
 
 
 EVALS = ["anp_agrees", "agraph_agrees", "askel_agrees", "aeager_agrees", "aeskel_agrees", "a_good", "model_conv_equal",
-         "aeager_agrees_c true", "aeskel_agrees_c true"]
+         "aeager_agrees_c true", "aeskel_agrees_c true", "agraph_agrees_ns", "askel_agrees_ns"]
 
 
 def run_stream(ctx, c11, runner, cases, state):
@@ -233,6 +233,10 @@ def run(ctx, c11, runner):
     if (bad["aeager_agrees"] or bad["aeskel_agrees"]) and not (bad["aeager_agrees_c true"] or bad["aeskel_agrees_c true"]):
         eager_variant = "negative-start-clamp"
         bad["aeager_agrees"], bad["aeskel_agrees"] = bad["aeager_agrees_c true"], bad["aeskel_agrees_c true"]
+    conv_variant = "as-read"
+    if (bad["agraph_agrees"] or bad["askel_agrees"]) and not (bad["agraph_agrees_ns"] or bad["askel_agrees_ns"]):
+        conv_variant = "negative-step-two-slices"          # Index/NegStepFix.v
+        bad["agraph_agrees"], bad["askel_agrees"] = bad["agraph_agrees_ns"], bad["askel_agrees_ns"]
     names = {"anp_agrees": "NumPy = AdvSpec.np_nest (broadcast block placement, every form)",
              "agraph_agrees": "graph result on onnxruntime = AdvSpec.conv_nest",
              "askel_agrees": "emitted Slice/Squeeze/Gather operands, Gather order and index shapes = conv_ops true / conv_gshapes",
@@ -306,7 +310,7 @@ def run(ctx, c11, runner):
                    f"(>= 40%); {n_bad_form} cases of bad forms, the models differ on {n_model_diff}", ok and n_bad_form > 50)
     if not (ok and n_bad_form > 50):
         ctx.tie_broken("harness", "generator-degenerate", "adv-forms stream lost its good or its bad forms")
-    return {"cases": n, "eager_variant": eager_variant, "bad_form_cases": n_bad_form, "model_predicts_different_tensor": n_model_diff,
+    return {"cases": n, "eager_variant": eager_variant, "converter_variant": conv_variant, "bad_form_cases": n_bad_form, "model_predicts_different_tensor": n_model_diff,
             "good_form_cases": good_cases, "good_form_graph_equals_numpy": good_equal, "refused": state["refused"],
             "outcomes": {f"{a}:{b}:{c}": v for (a, b, c), v in sorted(outcomes.items())},
             "different_tensor_by_class": {f"{a}:{b}": v for (a, b), v in sorted(diff.items())}}
